@@ -96,7 +96,7 @@ _plain = st.one_of(
 _hashable_lit = st.one_of(st.integers(-5, 50), st.sampled_from(["La", "Lb", "Lc"]))
 
 
-def expr_strategy(navail, style, depth=3, allow_kwargs=None, allow_rawdict=True, ext=()):
+def expr_strategy(navail, style, depth=3, allow_kwargs=None, allow_rawdict=True, ext=(), extras=False, hashable_nodes=()):
     """Expression over references to nodes 0..navail-1."""
     if allow_kwargs is None:
         allow_kwargs = style == "taskspec"
@@ -109,6 +109,18 @@ def expr_strategy(navail, style, depth=3, allow_kwargs=None, allow_rawdict=True,
     leaves.append(st.lists(st.one_of(st.integers(0, 9), st.sampled_from(["La", "k99"])), max_size=3).map(lambda v: {"tuplit": v}))
     leaves.append(st.lists(st.integers(0, 9), max_size=3).map(lambda v: {"quote": v}))
     leaf = st.one_of(*leaves)
+
+    ts_leaves = [_plain.map(lambda v: {"lit": v})]
+    if navail:
+        ts_leaves.append(st.integers(0, navail - 1).map(lambda i: {"ref": i}))
+    ts_children = st.recursive(
+        st.one_of(*ts_leaves),
+        lambda ch: st.one_of(
+            st.builds(lambda f, a: {"call": f, "args": a}, st.sampled_from(FN), st.lists(ch, max_size=2)),
+            st.lists(ch, max_size=2).map(lambda v: {"list": v}),
+        ),
+        max_leaves=3,
+    )
 
     def extend(children):
         opts = [
@@ -128,6 +140,39 @@ def expr_strategy(navail, style, depth=3, allow_kwargs=None, allow_rawdict=True,
             # statement) evaluates lists and dicts elementwise, not tuples, and
             # dask's legacy dependency finder and converter disagree on them.
             opts.append(st.lists(children, min_size=1, max_size=3).map(lambda v: {"tuple": v}))
+        if extras:
+            # namedtuple instances (both styles) and raw dict arguments
+            opts.append(st.tuples(children, children).map(lambda ab: {"nt": [ab[0], ab[1]]}))
+            if style == "taskspec":
+                opts.append(
+                    st.lists(st.tuples(_hashable_lit, children), max_size=3, unique_by=lambda kv: repr(kv[0])).map(
+                        lambda kv: {"rawdict": [[k, v] for k, v in kv]}
+                    )
+                )
+                elems = [_hashable_lit.map(lambda v: {"lit": v})]
+                if hashable_nodes:
+                    elems.append(st.sampled_from(list(hashable_nodes)).map(lambda i: {"ref": i}))
+                opts.append(st.lists(st.one_of(*elems), max_size=3).map(lambda v: {"set": v}))
+            else:
+                opts.append(
+                    st.lists(st.tuples(_hashable_lit, _hashable_lit), max_size=3, unique_by=lambda kv: repr(kv[0])).map(
+                        lambda kv: {"rawdict": [[k, {"lit": v}] for k, v in kv]}
+                    )
+                )
+                # a raw dict that is a DIRECT argument of a legacy tuple task and whose values are
+                # task objects / TaskRefs (only direct arguments are wrapped in Dict by the converter)
+                rd = st.lists(st.tuples(_hashable_lit, ts_children), min_size=1, max_size=3, unique_by=lambda kv: repr(kv[0])).map(
+                    lambda kv: {"rawdict_ts": [[k, v] for k, v in kv]}
+                )
+                opts.append(
+                    st.builds(
+                        lambda f, a, d, b: {"call": f, "args": a + [d] + b},
+                        st.sampled_from(FN),
+                        st.lists(children, max_size=1),
+                        rd,
+                        st.lists(children, max_size=1),
+                    )
+                )
         if allow_kwargs:
             opts.append(
                 st.builds(
@@ -143,7 +188,7 @@ def expr_strategy(navail, style, depth=3, allow_kwargs=None, allow_rawdict=True,
 
 
 @st.composite
-def rich_graph(draw, min_nodes=1, max_nodes=8, styles=("legacy", "taskspec"), with_external=False):
+def rich_graph(draw, min_nodes=1, max_nodes=8, styles=("legacy", "taskspec"), with_external=False, extras=False):
     n = draw(st.integers(min_nodes, max_nodes))
     style = draw(st.sampled_from(list(styles)))
     flavour = draw(st.sampled_from(["str", "str", "tuple", "int", "mixed"]))
@@ -153,7 +198,9 @@ def rich_graph(draw, min_nodes=1, max_nodes=8, styles=("legacy", "taskspec"), wi
         # falsy external values are outside the stated domain (see DESIGN 6)
         ext = {k: (v if v else "Lext") for k, v in ext.items()}
     nodes = []
+    hashable = []
     for i in range(n):
+        es = lambda: expr_strategy(i, style, ext=tuple(ext), extras=extras, hashable_nodes=tuple(hashable))  # noqa: E731
         kind = draw(st.sampled_from(["task", "task", "task", "data", "alias", "list", "expr"]))
         if kind == "data" or (kind in ("alias", "list") and i == 0):
             body = {"lit": draw(_plain)}
@@ -162,14 +209,16 @@ def rich_graph(draw, min_nodes=1, max_nodes=8, styles=("legacy", "taskspec"), wi
         elif kind == "list":
             body = {"list": [{"ref": j} for j in draw(st.lists(st.integers(0, i - 1), min_size=1, max_size=3))]}
         elif kind == "task":
-            args = draw(st.lists(expr_strategy(i, style, ext=tuple(ext)), max_size=3))
+            args = draw(st.lists(es(), max_size=3))
             body = {"call": draw(st.sampled_from(FN)), "args": args}
             if style == "taskspec" and draw(st.booleans()):
                 body["kwargs"] = draw(
-                    st.dictionaries(st.sampled_from(["p", "q"]), expr_strategy(i, style, ext=tuple(ext)), max_size=2)
+                    st.dictionaries(st.sampled_from(["p", "q"]), es(), max_size=2)
                 )
         else:
-            body = draw(expr_strategy(i, style, ext=tuple(ext)))
+            body = draw(es())
+        if "lit" in body and isinstance(body["lit"], (int, str)) and not isinstance(body["lit"], bool):
+            hashable.append(i)
         nodes.append({"k": keyspec(i, flavour), "body": body})
     spec = {"style": style, "nodes": nodes}
     if ext:
